@@ -27,7 +27,8 @@ PACK = 60
 def ops_cases(tier):
     cases = []
     stats = {"states": 0, "transitions": 0}
-    for mode in ("bin", "cmp", "un", "cast"):
+    # chain: casts chained three deep (dimension audit)
+    for mode in ("bin", "cmp", "un", "cast", "chain"):
         cfg = "MC_MachineOps_%s%s.cfg" % (mode, "_thorough" if tier == "thorough" else "")
         r = common.tlc("MC_MachineOps", cfg, workers=6, timeout=1500, heap="6g", tag="C01-ops-%s-%d" % (mode, os.getpid()))
         if not r.ok:
@@ -46,27 +47,74 @@ def cell_items(idx, c):
     items = [{"k": "V", "x": a, "ty": mc.prim(t), "e": mc.lit(t, c["a"])}]
     if c["mode"] in ("bin", "cmp"):
         items.append({"k": "V", "x": b, "ty": mc.prim(t), "e": mc.lit(t, c["b"])})
-    if c["mode"] == "bin":
-        # one print! call with three arguments: the result and both operands (formatting of several values per call)
-        items.append({"k": "PP", "es": [mc.binop(c["op"], mc.var(a), mc.var(b)), mc.var(a), mc.var(b)]})
-    elif c["mode"] == "un":
-        items.append({"k": "P", "e": {"k": "un", "op": c["op"], "e": mc.var(a)}})
-    elif c["mode"] == "cast":
-        items.append({"k": "P", "e": {"k": "as", "t": c["op"], "e": mc.var(a)}})
+    fns = []
+    if c["mode"] != "cmp":
+        # the cell's expression over the operands x, y
+        def build(x, y):
+            if c["mode"] == "bin":
+                return mc.binop(c["op"], x, y)
+            if c["mode"] == "un":
+                return {"k": "un", "op": c["op"], "e": x}
+            if c["mode"] == "cast":
+                return {"k": "as", "t": c["op"], "e": x}
+            return {"k": "as", "t": c["t3"], "e": {"k": "as", "t": c["op2"], "e": {"k": "as", "t": c["op"], "e": x}}}
+        rt = c["rt"]
+        e = build(mc.var(a), mc.var(b))
+        r = "r%d" % idx
+        # every expression in every expression context (dimension audit): the value is the argument of the builtin, an
+        # initialiser, the right hand side of an assignment, a call argument, a return value, an element of an array literal
+        ctx = idx % 6
+        if ctx == 0:
+            shown = e
+        elif ctx == 1:
+            items.append({"k": "V", "x": r, "ty": mc.prim(rt), "e": e})
+            shown = mc.var(r)
+        elif ctx == 2:
+            items += [{"k": "V", "x": r, "ty": mc.prim(rt), "e": mc.lit(rt, mc.int_to_limbs(0, mc.WIDTH[rt]))}, {"k": "S", "x": r, "e": e}]
+            shown = mc.var(r)
+        elif ctx == 3:
+            shown = {"k": "call", "f": "id_" + rt, "args": [e]}
+            fns.append({"name": "id_" + rt, "params": [{"x": "x", "ty": mc.prim(rt)}], "ret": mc.prim(rt), "body": [], "res": mc.var("x")})
+        elif ctx == 4:
+            params = [{"x": "x", "ty": mc.prim(t)}] + ([{"x": "y", "ty": mc.prim(t)}] if c["mode"] == "bin" else [])
+            fns.append({"name": "cell%d" % idx, "params": params, "ret": mc.prim(rt), "body": [], "res": build(mc.var("x"), mc.var("y"))})
+            shown = {"k": "call", "f": "cell%d" % idx, "args": [mc.var(a)] + ([mc.var(b)] if c["mode"] == "bin" else [])}
+        else:
+            items.append({"k": "V", "x": r, "ty": {"k": "array", "n": 2, "e": mc.prim(rt)},
+                          "e": {"k": "arr", "es": [mc.lit(rt, mc.int_to_limbs(0, mc.WIDTH[rt])), e]}})
+            shown = {"k": "ref", "x": r, "addr": 0, "steps": [{"k": "i", "e": mc.lit("usize", mc.int_to_limbs(1, 64))}]}
+        if c["mode"] == "bin":
+            # one print! call with three arguments: the result and both operands (formatting of several values per call)
+            items.append({"k": "PP", "es": [shown, mc.var(a), mc.var(b)]})
+        else:
+            items.append({"k": "P", "e": shown})
     else:
         cond = {"op": c["op"], "l": mc.var(a), "r": mc.var(b)}
         items += [{"k": "IO", "c": cond}, {"k": "P", "e": mc.lit("u8", [1])}, {"k": "C"},
                   {"k": "EO"}, {"k": "P", "e": mc.lit("u8", [0])}, {"k": "C"}]
+        if idx % 4 == 0:
+            # the same verdict carried through bool variables: set in the then-branch, copied, compared with a literal,
+            # cast to an integer (a bool variable holds what the comparison gave; every line shows the cell's value again)
+            r1, r2 = "r%d" % idx, "q%d" % idx
+            items += [{"k": "V", "x": r1, "ty": mc.prim("bool"), "e": mc.lit("bool", [0])},
+                      {"k": "IO", "c": cond}, {"k": "S", "x": r1, "e": mc.lit("bool", [1])}, {"k": "C"},
+                      {"k": "V", "x": r2, "ty": mc.prim("bool"), "e": mc.var(r1)},
+                      {"k": "IO", "c": {"op": "==", "l": mc.var(r2), "r": mc.lit("bool", [1])}}, {"k": "P", "e": mc.lit("u8", [1])}, {"k": "C"},
+                      {"k": "EO"}, {"k": "P", "e": mc.lit("u8", [0])}, {"k": "C"},
+                      {"k": "IO", "c": {"op": "!=", "l": mc.var(r1), "r": mc.var(r2)}}, {"k": "P", "e": mc.lit("u8", [9])}, {"k": "C"},
+                      {"k": "P", "e": {"k": "as", "t": "i32", "e": mc.var(r2)}}]
     if c["mode"] == "cmp":
-        expected = ["1" if c["r"][0] else "0"]
+        expected = ["1" if c["r"][0] else "0"] * (3 if idx % 4 == 0 else 1)
     elif c["mode"] == "bin":
         expected = [mc.shown(c["r"], c["rt"]), mc.shown(c["a"], t), mc.shown(c["b"], t)]
     else:
         expected = [mc.shown(c["r"], c["rt"])]
-    return items, expected
+    return items, expected, fns
 
 
 def cell_key(c):
+    if c["mode"] == "chain":
+        return "chain %s as %s as %s as %s a=%s" % (c["t"], c["op"], c["op2"], c["t3"], mc.limbs_to_int(c["a"], c["t"]))
     return "%s %s %s a=%s b=%s" % (c["mode"], c["t"], c["op"], mc.limbs_to_int(c["a"], c["t"]),
                                    mc.limbs_to_int(c["b"], c["t"]) if c["b"] else "")
 
@@ -122,14 +170,16 @@ def part_ops(rep, tier, seed, layouts):
     programs, expected, keys = [], [], []
     for start in range(0, len(live), PACK):
         chunk = live[start:start + PACK]
-        body, exp, ks = [], [], []
+        body, exp, ks, fns = [], [], [], {}
         for k, c in enumerate(chunk):
-            items, want = cell_items(k, c)
+            items, want, helpers = cell_items(k, c)
             body.append({"k": "M", "i": k})
             body += items
             exp.append(want)
             ks.append(cell_key(c))
-        programs.append(mc.program([mc.main_fn(body)]))
+            for f in helpers:
+                fns[f["name"]] = f
+        programs.append(mc.program([mc.main_fn(body)] + list(fns.values())))
         expected.append(exp)
         keys.append(ks)
     checked = check_pack(rep, "ops", programs, expected, keys, layouts, seed, "C01-ops")
@@ -258,6 +308,30 @@ def part_ptr(rep, tier, seed, layouts):
     return cases, {"states": r.distinct, "transitions": r.generated, "changed": len(changed), "done": len(done)}
 
 
+def part_families(rep, tier, seed, layouts):
+    """D / F / N (dimension audit): parametrised families built and executed by TLC -- data shapes (arrays of 100 / 1000
+    elements, structures of 12 members nested 3 deep, 3-dimensional arrays, zero-length arrays, views of views, pointers
+    carried across loop iterations, loop-local declarations, copies of whole words), frames (recursion, mutual recursion,
+    1..12 parameters of mixed widths, every return type) and control flow nested three deep (MC_MachineData, MC_MachineFrames,
+    MC_MachineNest; checks/machine_fam.py)"""
+    from . import machine_fam as mf
+    layouts = min(layouts, 2)
+    data, st_d = mf.run_family(rep, "data", "data", "MC_MachineData", "MC_MachineData_%s.cfg" % tier, layouts, seed, "C01-data", workers=6)
+    frames, st_f = mf.run_family(rep, "frames", "frames", "MC_MachineFrames", "MC_MachineFrames_%s.cfg" % tier, layouts, seed, "C01-frames", workers=6)
+    r = common.tlc("MC_MachineNest", "MC_MachineNest_%s.cfg" % tier, workers=6, timeout=1500, heap="4g", tag="C01-nest-%d" % os.getpid())
+    if not r.ok:
+        raise common.ToolError("MC_MachineNest: invariant %s violated (the template leaves the label rule or the machine trips a monitor)" % r.violated)
+    nest = r.cases
+    if len(nest) < 100:
+        raise common.ToolError("MC_MachineNest is vacuous: %d terminating bodies" % len(nest))
+    log("[tlc] MC_MachineNest: %d states, %d terminating bodies, %.1fs" % (r.distinct, len(nest), r.wall))
+    checked, packs = mf.check_packed_bodies(rep, "nest", "nest", nest, layouts, seed, "C01-nest")
+    log("[replay] MC_MachineNest: %d bodies in %d programs x %d layouts, %d comparisons" % (len(nest), packs, layouts, checked))
+    st = {"states": st_d["states"] + st_f["states"] + r.distinct, "transitions": st_d["transitions"] + st_f["transitions"] + r.generated,
+          "data": len(data), "frames": len(frames), "nest": len(nest), "families": dict(st_d["families"], **st_f["families"])}
+    return data, frames, nest, st
+
+
 def part_random(rep, tier, seed, layouts):
     from . import machine_trace
     return machine_trace.run_random(rep, "C01", tier, seed, layouts)
@@ -268,6 +342,7 @@ def run(rep, tier, seed, selftest):
     cells, live, st_ops, ops_programs = part_ops(rep, tier, seed, layouts)
     cf_cases, st_cf = part_cf(rep, tier, seed, layouts)
     ptr_cases, st_ptr = part_ptr(rep, tier, seed, layouts)
+    fam_data, fam_frames, fam_nest, st_fam = part_families(rep, tier, seed, layouts)
     rnd = part_random(rep, tier, seed, layouts)
     # X: "Interoperability with C" (docs/features.md): foreign functions whose meaning CInterop.tla defines, C templates
     # compiled by clang, programs linked and run under lli and natively (checks/cinterop_part.py, docs/notes-cinterop.md)
@@ -279,8 +354,8 @@ def run(rep, tier, seed, selftest):
         probe = common.Report("C01", tier, seed)
         probe.known = []
         c = dict(live[len(live) // 2])
-        items, want = cell_items(0, c)
-        prog = mc.program([mc.main_fn([{"k": "M", "i": 0}] + items)])
+        items, want, helpers = cell_items(0, c)
+        prog = mc.program([mc.main_fn([{"k": "M", "i": 0}] + items)] + helpers)
         import io, contextlib
         buf = io.StringIO()
         with contextlib.redirect_stdout(buf):
@@ -303,6 +378,8 @@ def run(rep, tier, seed, selftest):
         for f in probe2.violations:
             if os.path.exists(f):
                 os.remove(f)
+        from . import machine_fam as mf
+        selftests["family_corrupted_value_and_exit_detected"] = mf.selftest(fam_frames, 1, seed, "C01-selftest-fam")
         selftests.update(rnd.get("selftests", {}))
         selftests.update(xi.get("selftests", {}))
         log("[selftest] %s" % json.dumps(selftests))
@@ -313,21 +390,28 @@ def run(rep, tier, seed, selftest):
     samples = [{"cell": c} for c in rs.sample(live, min(3, len(live)))]
     samples += [{"skeleton": c} for c in rs.sample(cf_cases, min(3, len(cf_cases)))]
     samples += [{"caller_callee": {k: c[k] for k in ("c1", "c2", "status", "out")}} for c in rs.sample(ptr_cases, min(3, len(ptr_cases)))]
+    samples += [{"family_program": {k: c[k] for k in ("par", "out")}} for c in rs.sample(fam_data, 1) + rs.sample(fam_frames, 1)]
     samples += rnd.get("samples", [])
     samples += xi.get("samples", [])[:3]
     coverage = {
-        "states": st_ops["states"] + st_cf["states"] + st_ptr["states"] + rnd.get("states", 0) + xi.get("states", 0),
-        "transitions": st_ops["transitions"] + st_cf["transitions"] + st_ptr["transitions"] + rnd.get("transitions", 0) + xi.get("transitions", 0),
-        "traces_validated_against_impl": len(live) + len(cf_cases) + len(ptr_cases) + rnd.get("accepted", 0) + xi.get("traces_validated_against_impl", 0),
+        "states": st_ops["states"] + st_cf["states"] + st_ptr["states"] + st_fam["states"] + rnd.get("states", 0) + xi.get("states", 0),
+        "transitions": st_ops["transitions"] + st_cf["transitions"] + st_ptr["transitions"] + st_fam["transitions"] + rnd.get("transitions", 0) + xi.get("transitions", 0),
+        "traces_validated_against_impl": len(live) + len(cf_cases) + len(ptr_cases) + len(fam_data) + len(fam_frames) + len(fam_nest) + rnd.get("accepted", 0) + xi.get("traces_validated_against_impl", 0),
         "samples": samples,
-        "evaluations": len(cells) + len(cf_cases) + len(ptr_cases) + rnd.get("programs", 0) + xi.get("evaluations", 0),
-        "distinct_nontrivial": len(live) + len(cf_cases) + st_ptr["changed"] + rnd.get("nontrivial", 0) + xi.get("distinct_nontrivial", 0),
+        "evaluations": len(cells) + len(cf_cases) + len(ptr_cases) + len(fam_data) + len(fam_frames) + len(fam_nest) + rnd.get("programs", 0) + xi.get("evaluations", 0),
+        "distinct_nontrivial": len(live) + len(cf_cases) + st_ptr["changed"] + len(fam_data) + len(fam_frames) + len(fam_nest) + rnd.get("nontrivial", 0) + xi.get("distinct_nontrivial", 0),
         "rule": "A: TLC evaluates every operator x type x boundary-operand cell of Machine.tla (ub cells are not executed); "
                 "B: TLC enumerates every accepted body over blocks/if-else chains/gotos/labels/loops/increment/print up to the "
                 "bound (and over {block, goto, label, print} with two label names) and runs the machine; "
                 "P: TLC enumerates every caller/callee program of MC_MachinePtr (parameter kind x argument form x way the callee "
                 "treats the parameter, one or two parameters), runs the machine and checks non-interference, legality and the "
                 "machine's monitors as invariants; accepted programs are executed and compared, refused ones must be rejected; "
+                "D/F/N: TLC builds one program per parameter record of MC_MachineData (arrays of 0..1000 elements, structures of 12 "
+                "members nested 3 deep, 3-dimensional arrays, zero-length arrays in every position, views of views, pointers carried "
+                "across iterations, loop-local declarations, copies of whole words), MC_MachineFrames (recursion and mutual recursion "
+                "with live locals, 1..12 parameters of mixed widths, every return type) and MC_MachineNest (three nested loops / blocks "
+                "with gotos to every outer label), runs the machine on it (invariant: no undefined behaviour, monitors silent) and "
+                "emits it with its output; every one is compiled and executed; "
                 "C: a seeded Rust generator produces well-typed programs (all integer widths, value / word / view / slice-pointer / "
                 "pointer / pointer-to-pointer parameters, arrays incl. multi-dimensional, structs, words, constants, calls in "
                 "expressions) whose recorded output TLC validates by running the machine on the logged program. "
@@ -336,6 +420,7 @@ def run(rep, tier, seed, selftest):
                 "Each program runs in %d layouts. X: " % layouts + xi.get("rule", ""),
         "exhaustive": True,
         "ops_cells": len(cells), "ops_cells_defined": len(live), "cf_bodies": len(cf_cases),
+        "family_programs": {"data": len(fam_data), "frames": len(fam_frames), "nest": len(fam_nest)}, "family_counts": st_fam["families"],
         "ptr_programs": len(ptr_cases), "ptr_programs_completed": st_ptr["done"], "ptr_programs_changing_a_caller_cell": st_ptr["changed"],
         "random_programs": rnd.get("programs", 0), "random_programs_trivial": rnd.get("trivial", 0),
         "layouts": layouts,
@@ -345,7 +430,17 @@ def run(rep, tier, seed, selftest):
         "selftests": selftests,
     }
     coverage.update({k: v for k, v in xi.items() if k.startswith("cinterop_")})
-    return rep.finish("model_checking", coverage, list(xi.get("assumptions", [])) + [
+    # I: type inference (spec/Inference.tla): unannotated declarations and unsuffixed literals are THE documented style; a
+    # program whose types are determined must be accepted and behave like its fully annotated twin (docs/notes-infer.md)
+    from . import infer_part
+    icov = infer_part.run_part(rep, tier, seed, selftest)
+    coverage.update(icov)
+    coverage["states"] += icov.get("infer_states", 0)
+    coverage["transitions"] += icov.get("infer_transitions", 0)
+    coverage["traces_validated_against_impl"] += icov.get("infer_cases_replayed", 0) + icov.get("infer_random_lines_accepted", 0)
+    coverage["evaluations"] += icov.get("infer_cases_replayed", 0) + icov.get("infer_random_programs", 0)
+    coverage["distinct_nontrivial"] += icov.get("infer_distinct_nontrivial", 0)
+    return rep.finish("model_checking", coverage, list(xi.get("assumptions", [])) + list(infer_part.ASSUMPTIONS) + [
         "decimal text <-> two's complement limbs is converted in Python (trusted)",
         "undefined behaviour (division by zero, MIN / -1, shift >= width, index out of bounds) is decided by the "
         "specification; such cells/programs are not executed",
@@ -362,6 +457,9 @@ def replay(path):
     if d.get("kind", "").startswith("cinterop-"):
         from . import cinterop_part
         return cinterop_part.replay(path)
+    if d.get("kind", "").startswith("infer-"):
+        from . import infer_part
+        return infer_part.replay(path)
     det = d["detail"]
     print(json.dumps({k: det[k] for k in det if k not in ("source", "program")}, indent=1))
     if "source" in det:
